@@ -19,11 +19,11 @@ def strategy(tier):
     ks = st.lists(st.integers(0, 60), min_size=1, max_size=6)
     bigk = st.lists(st.one_of(st.integers(0, 100), st.integers(100, 10000)), min_size=1, max_size=6)
     return st.one_of(
-        st.fixed_dictionaries({"dist": st.just("exponential"), "a": st.one_of(st.floats(0.01, 10.0), st.floats(0.01, 10.0), st.floats(10.0, 3000.0), st.integers(1, 2000)), "ks": bigk, "np": st.sampled_from([False, False, "int64", "uint64", "uint16", "int32"])}),
-        st.fixed_dictionaries({"dist": st.just("poisson"), "m": st.one_of(st.floats(0.01, 20.0), st.floats(20.0, 1000.0), st.integers(1, 300)), "ks": st.lists(st.one_of(st.integers(0, 100), st.integers(100, 1000)), min_size=1, max_size=6), "np": st.sampled_from([False, False, "int64", "uint64", "uint16", "int32"])}),
-        st.fixed_dictionaries({"dist": st.just("power_law"), "alpha": st.one_of(st.floats(2.0, 8.0), st.integers(2, 12)), "ks": bigk, "np": st.sampled_from([False, False, "int64", "uint64", "uint16", "int32"])}),
+        st.fixed_dictionaries({"dist": st.just("exponential"), "a": st.one_of(st.floats(0.01, 10.0), st.floats(0.01, 10.0), st.floats(10.0, 3000.0), st.integers(1, 2000)), "ks": bigk, "np": st.sampled_from([False, False, "int64", "uint64", "uint16", "int32", "float", "float64"])}),
+        st.fixed_dictionaries({"dist": st.just("poisson"), "m": st.one_of(st.floats(0.01, 20.0), st.floats(20.0, 1000.0), st.integers(1, 300)), "ks": st.lists(st.one_of(st.integers(0, 100), st.integers(100, 1000)), min_size=1, max_size=6), "np": st.sampled_from([False, False, "int64", "uint64", "uint16", "int32", "float", "float64"])}),
+        st.fixed_dictionaries({"dist": st.just("power_law"), "alpha": st.one_of(st.floats(2.0, 8.0), st.integers(2, 12)), "ks": bigk, "np": st.sampled_from([False, False, "int64", "uint64", "uint16", "int32", "float", "float64"])}),
         st.fixed_dictionaries({"dist": st.just("cutoff"), "alpha": st.one_of(st.floats(2.0, 6.0), st.integers(2, 8)),
-                               "kappa": st.one_of(st.floats(0.01, 0.2), st.floats(0.1, 20.0), st.floats(20.0, 2000.0)), "ks": bigk, "np": st.sampled_from([False, False, "int64", "uint64", "uint16", "int32"])}),
+                               "kappa": st.one_of(st.floats(0.01, 0.2), st.floats(0.1, 20.0), st.floats(20.0, 2000.0)), "ks": bigk, "np": st.sampled_from([False, False, "int64", "uint64", "uint16", "int32", "float", "float64"])}),
     )
 
 
@@ -39,7 +39,9 @@ def check(case):
     npk = case.get("np")
     if npk is True:
         npk = "int64"
-    conv = (lambda k: getattr(np, npk)(k)) if npk else (lambda k: k)
+    # a degree may arrive as a NumPy integer, or as a float with an integral value (np.arange(1.0, n), a column of a
+    # float array): it is the same degree
+    conv = (lambda k: float(k)) if npk == "float" else ((lambda k: getattr(np, npk)(k)) if npk else (lambda k: k))
     if d == "exponential":
         a = mp.mpf(case["a"])
         f = call("factory", exponential, case["a"])
